@@ -41,7 +41,7 @@ Section QIdentity.
   Hypothesis Hn : 3 <= n.
 
   Lemma qN2_val : (qN2 m == inject_Z (Z.of_nat n) - 2)%Q.
-  Proof. unfold qN2. destruct Sq as [-> _]. unfold Qminus. rewrite inject_Z_plus. reflexivity. Qed.
+  Proof. unfold qN2. destruct Sq as [-> _]. unfold Z.sub. rewrite inject_Z_plus, inject_Z_opp. reflexivity. Qed.
 
   Lemma rows_sum a b : a < n -> b < n -> a <> b ->
     (qsum (nth a m []) + qsum (nth b m [])
